@@ -38,6 +38,7 @@ THEOREMS = {
         "Shroud.Lines.wl_total",
         "Shroud.Lines.wl_empty_body_ok",
         "Shroud.Lines.rendered_line_limit",
+        "Shroud.Lines.wl_subline_spec",
         "Shroud.Lines.emitter_line_config",
     ]
 }
